@@ -2,3 +2,5 @@ import Mpd.Basic
 import Mpd.Tag
 import Mpd.Command
 import Mpd.AFrame
+import Mpd.Frame
+import Mpd.FrameOps
